@@ -491,7 +491,7 @@ impl Property for C09 {
         vec![("matrix", 7), ("matrix-with-secondary", 1)]
     }
     fn budget(&self) -> (u64, u64) {
-        (40_000, 1_000_000)
+        (200_000, 4_000_000)
     }
     fn rule(&self) -> &'static str {
         "one session performs 1-6 steps of {login: administrator ok / wrong password, database token, wrong token, unknown database, user token ok / wrong; the administrator (another session) replaces or removes the user's permission list mid-session; one of 35 commands (every command word of the parser) on one of 5 keys incl. a $$ key}, permission lists from 9 lists over {r,w,i,x} with prefix*, *suffix and contains patterns. Access-control reference model: administrative and cluster commands need the administrator login; data commands need a selected database and, for user-token sessions, a permission entry of the right kind whose pattern matches the key; $$ keys need the administrator. Denied => the full white-box state (all databases, role, member table, snapshot queue, pending operations) is unchanged and the session receives no data line; allowed => no permission/credential error. Disruptive cluster commands are only tested for refusal. Scenario matrix-with-secondary runs the same walk on the primary of a 2-node cluster: a refused command must leave the secondary's data unchanged as well. Non-trivial: at least one denied command was checked. distinct = distinct programs."
